@@ -10,11 +10,14 @@ class C03(RunProp):
         'text': 'Theorems (same model and quantifier as C01): success is reported iff no stage raised, no expectThat mismatched and '
                 'force_failure is unset; a single exception yields the outcome its type maps to, user handlers first in list order; whenever '
                 'any stage raised something that maps to failure or error the one reported outcome is failure/error/unexpected success, '
-                'whatever other stages raised before or after (all ordered combinations of kinds and stages at once). The documented '
+                'whatever other stages raised before or after (all ordered combinations of kinds and stages at once); a recorded expectThat '
+                'mismatch (in any executed stage, setUp included - also when setUp then gives up with a skip or an expected failure - or '
+                'force_failure left set) is reported as a failure, or as the error of an exception that has to propagate: never success / skip / '
+                'expected failure / unexpected success (C03_expectation_fails, clause expectation-mismatch-fails). The documented '
                 'type->outcome mapping is stated independently of the exception_handlers table extracted from testcase.py; a theorem proves '
                 'the extracted table implements it, so a reordered table breaks the proof and the differential check finds the failing test.',
         'note': 'trusted: Lean kernel; model TTV/Model/RunTest.lean; harness/mrun.py; hypotheses: wf (distinct stage ids, user handlers only for '
-                'Exception subclasses; further conjuncts concern C02/C05 only), user handlers report unsuccessful outcomes for no-downgrade / do not report success for success-iff '
+                'Exception subclasses; further conjuncts concern C02/C05 only), user handlers report unsuccessful outcomes for no-downgrade / do not report success for success-iff / do not claim the forced AssertionError for expectation-mismatch-fails '
                 '(a user handler is arbitrary code); 2.6-style results not judged for success-iff (they show skip as success, see C08)',
         'technique': 'Lean 4 proofs about exception selection (list folds) over the M-Run model, generated handler table proved against a documented mapping, differential correspondence',
     }
